@@ -404,7 +404,7 @@ pub fn run(ctx: &Ctx) -> i32 {
                     while at < end {
                         let mut panics = vec![];
                         let mut hangs = vec![];
-                        let (how, resume) = drive_worker(seed, thorough, at, end, 120, &mut acc, &mut panics, &mut hangs);
+                        let (how, resume) = drive_worker(seed, thorough, at, end, if thorough { 120 } else { 60 }, &mut acc, &mut panics, &mut hangs);
                         for (idx, text) in panics {
                             acc.violation(Violation { sig: format!("panic: {}", ev::truncate(&crate::c02_mask(&text), 80)), case: case_json(seed, idx, thorough), observed: text, expected: "Ok or Err".into() });
                         }
@@ -435,7 +435,7 @@ pub fn run(ctx: &Ctx) -> i32 {
                                     let mut p2 = vec![];
                                     let mut h2 = vec![];
                                     let mut a2 = Acc::default();
-                                    let (how2, _) = drive_worker(seed, thorough, idx, idx + 1, 900, &mut a2, &mut p2, &mut h2);
+                                    let (how2, _) = drive_worker(seed, thorough, idx, idx + 1, if thorough { 900 } else { 300 }, &mut a2, &mut p2, &mut h2);
                                     match how2 {
                                         WorkerEnd::Done => {
                                             acc.count("slow_cases_completed_alone");
@@ -444,7 +444,7 @@ pub fn run(ctx: &Ctx) -> i32 {
                                         }
                                         _ => {
                                             hang_verdicts.fetch_add(1, Ordering::Relaxed);
-                                            acc.violation(Violation { sig: "no termination within the budget".into(), case: case_json(seed, idx, thorough), observed: format!("the case did not finish within 120 s in a batch nor within 900 s alone ({how2:?})"), expected: "termination".into() })
+                                            acc.violation(Violation { sig: "no termination within the budget".into(), case: case_json(seed, idx, thorough), observed: format!("the case did not finish within {} s in a batch nor within {} s alone ({how2:?})", if thorough { 120 } else { 60 }, if thorough { 900 } else { 300 }), expected: "termination".into() })
                                         }
                                     }
                                 }
@@ -506,7 +506,7 @@ pub fn run(ctx: &Ctx) -> i32 {
         fuzz_stage(ctx, "totality", 600, "C04", &mut acc);
     }
     let rule = format!("{} cases in crash-isolated worker processes: 3/4 mixed corpus inputs (valid streams, mutants, splices, seeds, random bytes/tokens), 1/4 adversarial shapes (nesting to {} for JSON/MessagePack/TOML and {} for YAML, unclosed openers, declared lengths up to 2^32-1 on every str/bin/ext/array/map marker, alias bombs, lone anchors/aliases/tags, empty input, valid documents with a node the target must refuse, long scalars and wide collections, numeric edge literals, UTF-16/32 YAML with multi-byte characters on every alignment around 8/16/24/32 KiB of re-encoded text, random bytes); every case x 5 source selections x 4 targets x [slice, reader under a random schedule] (+ for translatable inputs two runs with a writer that fails at a random output offset) on the worker's 8 MiB main-thread stack with an 8 GiB address-space limit; plus a sample of adversarial inputs through the debug and release binaries; distinct non-trivial = distinct non-empty inputs", n, if thorough { 100000 } else { 5000 }, if thorough { 30000 } else { 1200 });
-    let mut f = Finish { ctx, level: "exploration", rule, assumptions: vec!["'never loops forever' is decided up to a budget: 120 s without progress in a batch, then 900 s alone".into(), "a dead worker is attributed to the case it had announced".into()], extra: serde_json::Map::new(), exhaustive: false, min_distinct: 1000, must_reach: vec![("cases_completed".into(), (n as u64) * 9 / 10), ("binary_sample_exit_0_or_1".into(), 50), ("class_huge_declared_length".into(), 10), ("class_alias_bomb".into(), 10), ("class_reencoded_boundary".into(), 10)] };
+    let mut f = Finish { ctx, level: "exploration", rule, assumptions: vec!["'never loops forever' is decided up to a budget: quick 60 s without progress in a batch, then 300 s alone; thorough 120 s / 900 s".into(), "a dead worker is attributed to the case it had announced".into()], extra: serde_json::Map::new(), exhaustive: false, min_distinct: 1000, must_reach: vec![("cases_completed".into(), (n as u64) * 9 / 10), ("binary_sample_exit_0_or_1".into(), 50), ("class_huge_declared_length".into(), 10), ("class_alias_bomb".into(), 10), ("class_reencoded_boundary".into(), 10)] };
     if !acc.violations.is_empty() {
         f.must_reach.clear();
     }
